@@ -201,7 +201,9 @@ class parallel_world(object):
         mode = self.cfg.get("parallel_mode") or ("thread-coop", "proc", "thread-preempt")[(self.seed >> 3) % 3]
         if mode not in ("proc", "thread-coop", "thread-preempt"):
             raise InvalidCase("parallel mode")
-        self.world = simparallel.World(self.sched, mode, 8)
+        # the caller's ambient joblib configuration may also set a default number of workers
+        dn = self.cfg.get("default_n_jobs", (None, 2, 3)[(self.seed >> 6) % 3])
+        self.world = simparallel.World(self.sched, mode, 8, default_n_jobs=dn)
         simparallel.install(self.world)
         return self.world
 
